@@ -3,8 +3,8 @@
 From GV.Model Require Import SEval.
 From GV.Proofs Require Import StatusProps EvalLaws CompareProps NegationProps TableProps.
 From GV.Generated Require Import EvalTables.
-From GV.Model Require Import ValueParse QueryParse OpParse ClauseParse CnfParse.
-From GV.Proofs Require Import ValueSpellProps QuerySpellProps OpParseProps ClauseParseProps ClauseSpellProps CnfParseProps.
+From GV.Model Require Import ValueParse QueryParse OpParse ClauseParse CnfParse FilterParse ClauseFParse.
+From GV.Proofs Require Import ValueSpellProps QuerySpellProps OpParseProps ClauseParseProps ClauseSpellProps CnfParseProps FilterParseProps ClauseFProps.
 
 (* `not X exists` == `X !exists`, likewise empty and the is_* tests: same status, same
    final state, for every query, all/some, every callee evaluator, every state *)
@@ -124,3 +124,9 @@ Theorem C03_rule_reference_negation_is_recorded : forall s v r,
   rule_clause s = POk v r -> pn_neg v = match not_kw s with Some _ => true | None => false end.
 Proof. exact rule_reference_negation. Qed.
 Print Assumptions C03_rule_reference_negation_is_recorded.
+
+(* the same clause read by the parser over queries with filters carries the same negation flag and operator *)
+Theorem C03_negation_is_recorded_with_filters : forall rv s c r, clause_top rv s = POk c r ->
+  exists c', clause_f_top rv s = POk c' r /\ gc_neg c' = pc_neg c /\ gc_cmp c' = pc_cmp c.
+Proof. exact clause_f_negation. Qed.
+Print Assumptions C03_negation_is_recorded_with_filters.
